@@ -156,8 +156,7 @@ func finish(r *scen.Runner) *harn.Failure {
 			listed[rs.Key] = rs.Categories
 		}
 		// (1) saved results
-		check := func(name, category string, where string) *harn.Failure {
-			key := utils.Snakify(name)
+		check := func(key, category string, where string) *harn.Failure {
 			cats, ok := listed[key]
 			if !ok {
 				return harn.Failf("result-listed", "flow %q: a run saved result %q (%s) but the inspection lists results %v", f.Name(), key, where, keys(listed))
@@ -176,8 +175,14 @@ func finish(r *scen.Runner) *harn.Failure {
 			observed = append(observed, "result")
 			return nil
 		}
-		for _, res := range run.Results() {
-			if fl := check(res.Name, res.Category, "stored result"); fl != nil {
+		// the key a result is actually stored under (what @results.<key> and the session JSON use), not a key re-derived from its name
+		storedKeys := make([]string, 0, len(run.Results()))
+		for key := range run.Results() {
+			storedKeys = append(storedKeys, key)
+		}
+		sort.Strings(storedKeys)
+		for _, key := range storedKeys {
+			if fl := check(key, run.Results()[key].Category, "stored result"); fl != nil {
 				return fl
 			}
 		}
@@ -187,7 +192,7 @@ func finish(r *scen.Runner) *harn.Failure {
 			_ = json.Unmarshal(b, &ev)
 			switch e.Type() {
 			case "run_result_changed":
-				if fl := check(fmt.Sprint(ev["name"]), fmt.Sprint(ev["category"]), "run_result_changed event"); fl != nil {
+				if fl := check(utils.Snakify(fmt.Sprint(ev["name"])), fmt.Sprint(ev["category"]), "run_result_changed event"); fl != nil {
 					return fl
 				}
 			case "flow_entered":
